@@ -377,6 +377,20 @@ theorem FRelG.bind {α β α' β' : Type} {R : α → β → Prop} {R' : α' →
     rw [this]
     rfl
 
+/-- the same when the specification has nothing more to do -/
+theorem FRelG.bind_ok {α β α' : Type} {R : α → β → Prop} {R' : α' → β → Prop} {o : Out (FRes α)} {s : FRes β}
+    {f : α → Out (FRes α')} (h : FRelG R o s) (hf : ∀ a b, R a b → FRelG R' (f a) (Except.ok b)) :
+    FRelG R' (bindF o f) s := by
+  cases s with
+  | ok b =>
+    obtain ⟨a, h1, h2⟩ := h
+    rw [h1]
+    exact hf a b h2
+  | error e =>
+    have : o = .ok (.error e) := h
+    rw [this]
+    rfl
+
 theorem FRelG.liftE {α α' β' : Type} {R' : α' → β' → Prop} {x : Out α} {a : α} {f : α → Out (FRes α')} {s : FRes β'}
     (hx : x = .ok a) (h : FRelG R' (f a) s) : FRelG R' (liftE x f) s := by
   rw [hx]; exact h
@@ -629,17 +643,13 @@ theorem findResources_rep {r : Resources} (hb : Aligned r) {t : Node} (h : IsTre
   exact FRelG.liftE hr ((getDir_rep hb hrep ty).bind (fun _ _ h' => getDir_rep hb h' name))
 
 theorem findResource_rep {r : Resources} (hb : Aligned r) {t : Node} (h : IsTree r t) (ty name : Name) :
-    FRelG (RepBytes r) (findResource r ty name) ((t.findResource ty name).bind Except.ok) := by
-  unfold findResource Node.findResource
-  rw [show ∀ x : FRes Node, (x.bind Node.firstData).bind Except.ok = x.bind (fun b => b.firstData.bind Except.ok) from
-    fun x => by cases x <;> rfl]
-  exact (findResources_rep hb h ty name).bind (fun _ _ h1 => (firstData_rep hb h1).bind (fun _ _ h2 => bytes_rep hb h2))
+    FRelG (RepBytes r) (findResource r ty name) (t.findResource ty name) := by
+  unfold findResource Node.findResource Node.firstData
+  exact (findResources_rep hb h ty name).bind (fun _ _ h1 => (firstData_rep hb h1).bind_ok (fun _ _ h2 => bytes_rep hb h2))
 
 theorem findResourceEx_rep {r : Resources} (hb : Aligned r) {t : Node} (h : IsTree r t) (ty name lang : Name) :
-    FRelG (RepBytes r) (findResourceEx r ty name lang) ((t.findResourceEx ty name lang).bind Except.ok) := by
+    FRelG (RepBytes r) (findResourceEx r ty name lang) (t.findResourceEx ty name lang) := by
   unfold findResourceEx Node.findResourceEx
-  rw [show ∀ x : FRes Node, (x.bind fun b => b.getData lang).bind Except.ok = x.bind (fun b => (b.getData lang).bind Except.ok) from
-    fun x => by cases x <;> rfl]
-  exact (findResources_rep hb h ty name).bind (fun _ _ h1 => (getData_rep hb h1 lang).bind (fun _ _ h2 => bytes_rep hb h2))
+  exact (findResources_rep hb h ty name).bind (fun _ _ h1 => (getData_rep hb h1 lang).bind_ok (fun _ _ h2 => bytes_rep hb h2))
 
 end Pelite.Resources
